@@ -22,12 +22,12 @@ import (
 // Real uasc client channel (over real uacp) against the scripted server.
 
 type reqPlan struct {
-	Action    string `json:"a"`            // answer | drop | dup | fault | unsolicited-first | wrongtype
-	DelayMs   int    `json:"delay_ms"`     // server side delay before answering
-	TimeoutMs int    `json:"timeout_ms"`   // request timeout of this call
-	CancelMs  int    `json:"cancel_ms"`    // >0: ctx cancelled after that time
-	StartMs   int    `json:"start_ms"`     // caller start offset
-	Chunks    int    `json:"chunks"`       // answer split into that many chunks
+	Action    string `json:"a"`             // answer | drop | dup | fault | unsolicited-first | wrongtype
+	DelayMs   int    `json:"delay_ms"`      // server side delay before answering
+	TimeoutMs int    `json:"timeout_ms"`    // request timeout of this call
+	CancelMs  int    `json:"cancel_ms"`     // >0: ctx cancelled after that time
+	StartMs   int    `json:"start_ms"`      // caller start offset
+	Chunks    int    `json:"chunks"`        // answer split into that many chunks
 	Tie       int    `json:"tie,omitempty"` // 0 none; 1: answer exactly when the timer fires; 2: 1ns before; 3: 1ns after
 }
 
